@@ -553,7 +553,7 @@ func eval(f *frame, e *Expr) any {
 	case "add":
 		// the compiler flattens parenthesised nested additions into one left-to-right chain
 		// (compile/ast/folder.go commutative): a + (b + c) checks a + b before c is evaluated
-		ops := addOperands(e, nil)
+		ops := foldAddOperands(addOperands(e, nil))
 		acc := eval(f, ops[0])
 		for _, o := range ops[1:] {
 			v := eval(f, o)
@@ -597,6 +597,35 @@ func addOperands(e *Expr, out []*Expr) []*Expr {
 		return addOperands(e.b, addOperands(e.a, out))
 	}
 	return append(out, e)
+}
+
+// foldAddOperands: what the folder (commutative) does to the flattened chain — literal zeros are
+// dropped, the other number literals are added into the position of the first one, and a chain
+// left with a single non-constant operand gets `+ 0` back. Values are unaffected (exact integers),
+// but the order in which operands are evaluated and checked is.
+func foldAddOperands(ops []*Expr) []*Expr {
+	first, sum := -1, 0
+	var out []*Expr
+	for _, o := range ops {
+		if o.kind != "num" {
+			out = append(out, o)
+			continue
+		}
+		if o.n == 0 {
+			continue
+		}
+		if first == -1 {
+			first = len(out)
+			out = append(out, o)
+		}
+		sum += o.n
+	}
+	if first != -1 {
+		out[first] = &Expr{kind: "num", n: sum}
+	} else if len(out) <= 1 {
+		out = append(out, &Expr{kind: "num", n: 0})
+	}
+	return out
 }
 
 func refRun(s *Scope, arg int) (res string) {
